@@ -88,7 +88,7 @@ def execute(rec):
     kind, name = rec['kind'], rec['elem']
     meta = EL.CATALOGUE[name]
     groups = GROUPS.get(meta['cclass'], [])
-    setup = {'a': 'Setup', 'elem': name, 'tolclass': meta['tol'], 'kind': kind, 'p': [], 'fv': [], 'ndofs': 0,
+    setup = {'a': 'Setup', 'elem': name, 'tolclass': meta['tol'], 'kind': kind, 'p': [], 'fv': [], 't': [], 'ndofs': 0,
              'groups': [{'q': q, 'at': at} for q, at in groups], 'err': '', 'curved': 1 if rec.get('curved') else 0}
     events = [setup]
 
@@ -106,13 +106,14 @@ def execute(rec):
     if not rec.get('curved'):
         setup['p'] = [[int(x) for x in col] for col in np.array(rec['p']).T]
     setup['fv'] = [[int(v) + 1 for v in m.facets[:, f]] for f in find]
+    setup['t'] = [[int(v) + 1 for v in col] for col in np.asarray(m.t).T]
     nd, err = guarded(lambda: int(InteriorFacetBasis(m, EL.make(name), side=0, facets=find[:1], intorder=1).N), 60)
     setup['ndofs'] = nd if not err else 1
     if len(find) == 0:
         setup['err'] = 'NoInteriorFacet'
         return events
     for q, at in groups:
-        ev = {'a': 'Group', 'q': q, 'at': at, 'ncomp': 0, 'nq': 0, 'items': [], 'err': ''}
+        ev = {'a': 'Group', 'q': q, 'at': at, 'ncomp': 0, 'nq': 0, 'items': [], 'err': '', 'tind0': [], 'tind1': []}
 
         def observe():
             kw = {}
@@ -142,12 +143,13 @@ def execute(rec):
                 touched = np.nonzero((A != 0).any(axis=(0, 2)) | (B != 0).any(axis=(0, 2)))[0]
                 for f in touched:
                     items.append({'d': d + 1, 'f': int(f) + 1, 'a': _fxa(A[:, f, :]), 'b': _fxa(B[:, f, :])})
-            return N, ncomp, nq, items
+            return N, ncomp, nq, items, [int(k) + 1 for k in fb0.tind], [int(k) + 1 for k in fb1.tind]
         obs, err = guarded(observe, 120)
         if err:
             ev['err'] = err
         else:
             setup['ndofs'], ev['ncomp'], ev['nq'], ev['items'] = int(obs[0]), int(obs[1]), int(obs[2]), obs[3]
+            ev['tind0'], ev['tind1'] = obs[4], obs[5]
         events.append(ev)
     return events
 
